@@ -268,6 +268,8 @@ type world struct {
 	labels    map[string]bool
 	fdBase    int
 	delivered int // steps of run 1 whose fault reached its target
+	healthURL string
+	canary    *canary
 	lastFault time.Time
 }
 
@@ -278,6 +280,8 @@ type Result struct {
 	Labels    []string
 	Log       string
 	YAML      string
+	Stalls    []string // environment stalls the canary recorded during the (last) attempt
+	Reruns    []string // earlier attempts whose violation was discarded because of a recorded stall
 }
 
 func (w *world) label(l string) { w.labels[l] = true }
@@ -287,6 +291,9 @@ func (w *world) nextID() string {
 }
 
 func (w *world) close() {
+	if w.canary != nil {
+		w.canary.stop()
+	}
 	if w.faulty != nil {
 		w.faulty.Refuse(false)
 	}
@@ -321,6 +328,7 @@ func startWorld(t testing.TB, c Case) (*world, string) {
 		ports := lab.FreePorts(2)
 		w.proxy = fmt.Sprintf("127.0.0.1:%d", ports[0])
 		w.adminURL = fmt.Sprintf("http://127.0.0.1:%d/v1/backends", ports[1])
+		w.healthURL = fmt.Sprintf("http://127.0.0.1:%d/v1/health", ports[1])
 		w.yaml = c.Cfg.YAML(ports[0], ports[1], w.good.URL(), w.faulty.URL())
 		w.admin = &http.Client{Timeout: 5 * time.Second, Transport: &http.Transport{DisableKeepAlives: true}}
 		w.h = lab.StartHelios(t, w.yaml)
@@ -653,15 +661,108 @@ func (w *world) alive(when string) string {
 	return ""
 }
 
-// RunCase executes one case completely: start, warm-up, the fault sequence twice, each time
+// ---------------------------------------------------------------------------------------------
+// Environment canary. The oracle clauses are wall-clock limits, so they are only meaningful while
+// the machine keeps time: a paused VM, a frozen process group or CPU starvation makes every timer
+// of helios and of the harness fire late at once (observed: three helios processes of three shards
+// all lost the same 13.7 s). The canary is independent of everything the property talks about:
+// (a) the gap between two ticks of a 100 ms ticker in the harness process, (b) the latency of
+// GET /v1/health on the admin port (no balancer, breaker, limiter or backend involved). A gap or
+// latency above 1 s is recorded as a stall. A violation reported by a run during which a stall was
+// recorded is not a verdict: the case is run again (RunCase).
+// ---------------------------------------------------------------------------------------------
+
+const stallLimit = time.Second
+
+type canary struct {
+	mu     sync.Mutex
+	stalls []string
+	quit   chan struct{}
+	done   chan struct{}
+}
+
+func startCanary(healthURL string) *canary {
+	c := &canary{quit: make(chan struct{}), done: make(chan struct{})}
+	cl := &http.Client{Timeout: 30 * time.Second, Transport: &http.Transport{MaxIdleConnsPerHost: 1}}
+	go func() {
+		defer close(c.done)
+		defer cl.CloseIdleConnections()
+		last := time.Now()
+		tk := time.NewTicker(100 * time.Millisecond)
+		defer tk.Stop()
+		for {
+			select {
+			case <-c.quit:
+				return
+			case <-tk.C:
+			}
+			now := time.Now()
+			if gap := now.Sub(last); gap > stallLimit {
+				c.add(fmt.Sprintf("harness ticker gap %v", gap.Round(time.Millisecond)))
+			}
+			resp, err := cl.Get(healthURL)
+			if err == nil {
+				_, _ = io.Copy(io.Discard, resp.Body)
+				_ = resp.Body.Close()
+			}
+			if lat := time.Since(now); lat > stallLimit {
+				c.add(fmt.Sprintf("GET /v1/health took %v (err %v)", lat.Round(time.Millisecond), err))
+			}
+			last = time.Now()
+		}
+	}()
+	return c
+}
+
+func (c *canary) add(s string) { c.mu.Lock(); c.stalls = append(c.stalls, s); c.mu.Unlock() }
+func (c *canary) stop() {
+	select {
+	case <-c.quit:
+	default:
+		close(c.quit)
+	}
+	<-c.done
+}
+func (c *canary) seen() []string {
+	c.mu.Lock()
+	defer c.mu.Unlock()
+	return append([]string(nil), c.stalls...)
+}
+
+// RunCase executes a case; a violation reported while the environment canary recorded a stall is
+// re-run (at most twice); three stalled attempts in a row make the case inconclusive.
+func RunCase(t testing.TB, c Case) Result {
+	var notes []string
+	for attempt := 1; ; attempt++ {
+		r := runOnce(t, c)
+		if r.Harness != "" || r.Violation == "" || len(r.Stalls) == 0 {
+			if len(notes) > 0 {
+				r.Labels = append(r.Labels, "rerun-after-environment-stall")
+				r.Reruns = notes
+			}
+			return r
+		}
+		notes = append(notes, fmt.Sprintf("attempt %d: %s || environment stalls during that attempt: %v", attempt, r.Violation, r.Stalls))
+		if attempt == 3 {
+			return Result{Harness: fmt.Sprintf("the environment stalled during each of 3 attempts, no verdict: %v", notes)}
+		}
+	}
+}
+
+// runOnce executes one case completely: start, warm-up, the fault sequence twice, each time
 // followed by clauses (ii)-(iv).
-func RunCase(t testing.TB, c Case) (res Result) {
+func runOnce(t testing.TB, c Case) (res Result) {
 	w, why := startWorld(t, c)
 	if w == nil {
 		return Result{Harness: why}
 	}
 	defer w.close()
+	w.canary = startCanary(w.healthURL)
 	defer func() {
+		res.Stalls = w.canary.seen()
+		if len(res.Stalls) > 0 {
+			w.label("environment-stall-observed")
+		}
 		res.YAML = w.yaml
 		res.Log = w.h.Log()
 		if w.delivered > 0 {
